@@ -49,7 +49,7 @@ class C15(core.Check):
                    'absolute scratch-directory paths printed by the listing are normalised before comparison')
     chunk = 2500
     crosscheck_every = {'quick': 200, 'thorough': 200}
-    required_buckets = {b: 3 for b in ['prog:overlapping-vocabulary', 'prog:register-name-beginning-with-another-register', 'prog:command-line-symbol-given-twice', 'var:output-file-already-there', 'prog:tilde-directory', 'var:hashseed', 'var:env', 'var:cwd', 'var:include-order', 'var:include-duplicate',
+    required_buckets = {b: 3 for b in ['prog:overlapping-vocabulary', 'prog:register-name-beginning-with-another-register', 'prog:command-line-symbol-given-twice', 'var:output-file-already-there', 'prog:tilde-directory', 'prog:configured-zone-name-given-twice', 'var:hashseed', 'var:env', 'var:cwd', 'var:include-order', 'var:include-duplicate',
                                        'var:include-symlink', 'prog:generated-isa', 'prog:multi-file', 'prog:example',
                                        'include-dirs>=3', 'ambiguous-include-name']}
 
@@ -219,6 +219,16 @@ class C15(core.Check):
             fn, text = isamod.render_isa(isa, 'json')
             yield self.build_runs({fn: text, 'p.asm': src_s}, 'p.asm', fn, ['.'], {'prog:output-file-already-there'},
                                   stale_image=bytes.fromhex(img_s))
+        # a configuration whose predefined zone list gives a name more than once, with different ranges: whichever entry
+        # counts, it is the same one in every run
+        for k, zl in enumerate([[('VARS', 0x10, 0x1F), ('VARS', 0x40, 0x4F)], [('VARS', 0x40, 0x4F), ('VARS', 0x10, 0x1F)],
+                                [('VARS', 0x10, 0x1F), ('IO', 0x80, 0x8F), ('VARS', 0x40, 0x4F), ('IO', 0x90, 0x9F), ('STK', 0xA0, 0xAF), ('STK', 0xB0, 0xBF)],
+                                [('VARS', 0x10, 0x1F), ('VARS', 0x20, 0x2F), ('VARS', 0x30, 0x3F), ('VARS', 0x40, 0x4F), ('VARS', 0x50, 0x5F)]]):
+            isa = gen_prog.layout_isa(16, zones=[{'name': n_, 'start': s_, 'end': e_} for n_, s_, e_ in zl])
+            src_z = ''.join(f'.org 2 "{n_}"\n.byte ${0xA0 + j_:02x}\n.memzone {n_}\n.byte ${0x50 + j_:02x}\n' for j_, n_ in enumerate(dict.fromkeys(n_ for n_, _, _ in zl)))
+            for fmt_ in ('json', 'yaml'):
+                fn, text = isamod.render_isa(isa, fmt_)
+                yield self.build_runs({fn: text, 'p.asm': src_z}, 'p.asm', fn, ['.'], {'prog:configured-zone-name-given-twice'})
         # a search directory whose name begins with "~" is that directory, whatever HOME says
         for k, incdir in enumerate(['~/lib', '~lib', '~']):
             isa = gen_prog.layout_isa(16)
